@@ -382,3 +382,109 @@ func TestReadFrameArbitrary(t *testing.T) {
 		}
 	})
 }
+
+// TestHeaderSequenceOnOneReader: several headers decoded by the SAME wsutil.Reader
+// (its decoder keeps scratch state between frames) must each equal what the
+// low-level decoder returns for the same bytes — including a zero Mask when the
+// header is not masked ("returns the identical header").
+func TestHeaderSequenceOnOneReader(t *testing.T) {
+	hx.Check(t, 3, func(t *rapid.T) {
+		n := rapid.IntRange(2, 6).Draw(t, "frames")
+		var stream []byte
+		var want []ref.Header
+		for i := 0; i < n; i++ {
+			h := ref.Header{
+				Fin:    true,
+				Rsv:    byte(rapid.IntRange(0, 7).Draw(t, "rsv")),
+				Op:     rapid.SampledFrom([]byte{ref.OpText, ref.OpBinary}).Draw(t, "op"),
+				Masked: rapid.Bool().Draw(t, "masked"),
+				Length: int64(rapid.SampledFrom([]int{0, 1, 125, 126, 127, 300, 65535, 65536, 65540}).Draw(t, "len")),
+			}
+			if h.Masked {
+				h.Mask = gen.Key(t, "key")
+				if h.Mask == [4]byte{} {
+					h.Mask = [4]byte{0xde, 0xad, 0xbe, 0xef}
+				}
+			}
+			want = append(want, h)
+			stream = append(stream, ref.EncodeHeader(h)...)
+			stream = append(stream, gen.Filled(int(h.Length), byte(i))...)
+		}
+		src := tx.NewSrc(stream, gen.Chunks(t, "chunks"))
+		rd := &wsutil.Reader{Source: src, SkipHeaderCheck: true}
+		hx.Eval()
+		hx.Class("sequence-on-one-reader")
+		shape := ""
+		for _, h := range want {
+			shape += fmt.Sprintf("%v/%d;", h.Masked, ref.LengthForm(h.Length))
+		}
+		hx.NonTrivial(hx.Hash("seq", shape), func() interface{} { return map[string]interface{}{"dir": "sequence", "headers": shape} })
+		for i, h := range want {
+			got, err := rd.NextFrame()
+			if err != nil {
+				t.Fatalf("frame %d: NextFrame: %v", i, err)
+			}
+			g := toRef(got)
+			if !sameHeader(g, h) {
+				t.Fatalf("frame %d: Reader.NextFrame returned %v, stream has %v", i, g, h)
+			}
+			if !h.Masked && g.Mask != [4]byte{} {
+				t.Fatalf("frame %d: Reader.NextFrame returned Mask %x for an unmasked header (ws.ReadHeader returns the zero key); previous headers: %v", i, g.Mask, want[:i])
+			}
+			if err := rd.Discard(); err != nil {
+				t.Fatalf("frame %d: Discard: %v", i, err)
+			}
+		}
+	})
+}
+
+// TestWholeFramesHuge: frames larger than 1 MiB (read by ws.ReadFrame in growing
+// chunks): exactly Length payload bytes are returned and not one byte beyond the
+// frame is consumed.
+func TestWholeFramesHuge(t *testing.T) {
+	const MiB = 1 << 20
+	sizes := []int{MiB - 1, MiB, MiB + 1, MiB + 4096, 2*MiB + 3, 3 * MiB}
+	if hx.Thorough() {
+		sizes = append(sizes, 4*MiB+1, 5*MiB, 8*MiB+7)
+	}
+	n := 0
+	for i, size := range sizes {
+		if !hx.Mine(i) {
+			continue
+		}
+		for _, masked := range []bool{false, true} {
+			h := ref.Header{Fin: true, Op: ref.OpBinary, Masked: masked, Length: int64(size)}
+			if masked {
+				h.Mask = [4]byte{1, 2, 3, 4}
+			}
+			payload := gen.Filled(size, byte(i))
+			tail := append(ref.EncodeHeader(ref.Header{Fin: true, Op: ref.OpText, Length: 2}), 'o', 'k')
+			stream := append(append(ref.EncodeHeader(h), payload...), tail...)
+			src := tx.NewSrc(nil, nil)
+			src.Data = stream
+			n++
+			noteHeader(h, "hugeframe")
+			f, err := ws.ReadFrame(src)
+			desc := map[string]interface{}{"payload": size, "masked": masked}
+			if err != nil {
+				hx.Failf(t, desc, "ReadFrame of a complete %d-byte frame: %v", size, err)
+				return
+			}
+			if !sameHeader(toRef(f.Header), h) || !bytes.Equal(f.Payload, payload) {
+				hx.Failf(t, desc, "ReadFrame returned %d payload bytes for a frame of %d", len(f.Payload), size)
+				return
+			}
+			if !bytes.Equal(src.Remaining(), tail) {
+				hx.Failf(t, desc, "ReadFrame consumed %d bytes of a %d-byte frame (the next frame was touched)", src.Pos, len(stream)-len(tail))
+				return
+			}
+			next, err := ws.ReadFrame(src)
+			if err != nil || string(next.Payload) != "ok" {
+				hx.Failf(t, desc, "the frame following a %d-byte frame was not read back intact: %v %q", size, err, next.Payload)
+				return
+			}
+		}
+	}
+	hx.EvalN(n)
+	hx.Part("whole frames > 1 MiB followed by another frame", int64(n), true)
+}
